@@ -38,8 +38,10 @@ def run(ctx):
     for rn in g.returns:
         if not kids(rn.ast):
             continue
-        for (fs, val) in F.return_cases(rn):
-            rk = F.ident_key(kids(rn.ast)[0]) if isinstance(val, str) else str(val)
+        base = list(F.facts_at(rn))
+        for (fs0, arm) in F.value_cases(kids(rn.ast)[0]):
+            fs = frozenset(base + list(fs0))
+            rk = F.ident_key(arm)
             # resolve  cl#id.field  to  <lookup call>.field
             m = re.match(r'^(.*)\.(\w+)$', rk)
             src, fld = (m.group(1), m.group(2)) if m else (rk, '')
